@@ -97,16 +97,15 @@ def gather(topo, obs, hist_size, extra_events=None):
             lines.append({k: v for k, v in e.items() if k in ("ev", "id", "st", "ok", "history_ids", "alive_len")})
         elif e["ev"] == "api_end" and extra_events and extra_events.get(e["seq"]):
             lines.append(extra_events[e["seq"]])
+    # a client source port may be used by more than one connection of a run: the scenarios run one after the other, so the
+    # k-th observation with a port belongs to the k-th context created with it
     by_port = {}
     for e in trace:
         if e["ev"] == "ctx_new":
-            by_port[int(e["source"].rsplit(":", 1)[1])] = e["id"]
+            by_port.setdefault(int(e["source"].rsplit(":", 1)[1]), []).append(e["id"])
     for o in obs:
-        cid = by_port.get(o.pop("sport", None))
-        if cid is None:
-            o["id"] = -1
-        else:
-            o["id"] = cid
+        q = by_port.get(o.pop("sport", None))
+        o["id"] = q.pop(0) if q else -1
         lines.append(o)
     return lines, by_port, trace
 
